@@ -59,7 +59,7 @@ Inductive bell_exit :=
   | BX_nodec                              (* loop: td < 0 accepted, acceleration only *)
   | BX_fail_noacc | BX_fail_nodec         (* negative discriminant in a single-phase case *)
   | BX_fail_loop                          (* loop condition ac > epsilon became false *)
-  | BX_fail_zero                          (* a limit is zero (fix C14-1) *)
+  | BX_fail_zero                          (* a limit is zero (fix b8b7c64) *)
   | BX_out_of_fuel.
 
 Section Model.
@@ -173,7 +173,7 @@ Section Model.
     let jm := if jm <? #0 then - jm else jm in
     let am := if am <? #0 then - am else am in
     let vm := if vm <? #0 then - vm else vm in
-    if orb (jm ==? #0) (orb (am ==? #0) (vm ==? #0))        (* zero limits admit no motion: goto fail (fix C14-1) *)
+    if orb (jm ==? #0) (orb (am ==? #0) (vm ==? #0))        (* a zero limit allows no motion: goto fail (fix b8b7c64) *)
     then (b_set_t #0 c, #0, BX_fail_zero, 0%nat) else
     let v0 := sat v0 (- vm) vm in
     let v1 := sat v1 (- vm) vm in
